@@ -27,6 +27,13 @@ type c04Case struct {
 }
 
 func c04Exec(tpl *pongo2.Template, st c04Step) (string, string) {
+	out, errText, _ := c04ExecRaw(tpl, st)
+	return out, errText
+}
+
+// c04ExecRaw also hands back the byte slice ExecuteBytes returned (it belongs to the caller)
+func c04ExecRaw(tpl *pongo2.Template, st c04Step) (string, string, []byte) {
+	var raw []byte
 	ctx := progContext(st.Variant, &tickState{failAt: st.FailAt})
 	if st.BadKey {
 		ctx["not an identifier"] = 1
@@ -38,6 +45,7 @@ func c04Exec(tpl *pongo2.Template, st c04Step) (string, string) {
 		var b []byte
 		b, err = tpl.ExecuteBytes(ctx)
 		out = string(b)
+		raw = b
 	case "ExecuteWriter":
 		var buf bytes.Buffer
 		err = tpl.ExecuteWriter(ctx, &buf)
@@ -65,7 +73,7 @@ func c04Exec(tpl *pongo2.Template, st c04Step) (string, string) {
 	default:
 		out, err = tpl.Execute(ctx)
 	}
-	return out, errText(err)
+	return out, errText(err), raw
 }
 
 func checkC04(c any, r *Rec) error {
@@ -76,13 +84,22 @@ func checkC04(c any, r *Rec) error {
 	}
 	src := cs.Prog.Files[cs.Prog.Entry]
 	failedBefore, differ := false, false
+	type kept struct {
+		raw  []byte
+		want string
+		at   int
+	}
+	var results []kept
 	for i, st := range cs.Hist {
 		_, fresh, _, err := compileProgram(cs.Prog, cs.Trim, cs.LStrip)
 		if err != nil {
 			return fmt.Errorf("second compilation of the same sources failed: %v", err)
 		}
 		wantOut, wantErr := c04Exec(fresh, st)
-		gotOut, gotErr := c04Exec(shared, st)
+		gotOut, gotErr, raw := c04ExecRaw(shared, st)
+		if raw != nil {
+			results = append(results, kept{raw, gotOut, i + 1})
+		}
 		if gotOut != wantOut || gotErr != wantErr {
 			return fmt.Errorf("execution %d of %d on the shared template (context variant %d, fail_at %d, %s, TrimBlocks=%v LStripBlocks=%v)\n got  %q / %s\n a freshly compiled template gives\n want %q / %s\n root=%q\n history=%+v",
 				i+1, len(cs.Hist), st.Variant, st.FailAt, st.Entry, cs.Trim, cs.LStrip, gotOut, gotErr, wantOut, wantErr, src, cs.Hist)
@@ -97,6 +114,12 @@ func checkC04(c any, r *Rec) error {
 		}
 		if gotErr != "<nil>" {
 			failedBefore = true
+		}
+	}
+	// what an execution returned stays what it was, whatever was executed afterwards
+	for _, k := range results {
+		if string(k.raw) != k.want {
+			return fmt.Errorf("the bytes ExecuteBytes returned in execution %d of %d were %q; after the later executions the same slice reads %q\n root=%q\n history=%+v", k.at, len(cs.Hist), k.want, string(k.raw), src, cs.Hist)
 		}
 	}
 	stateful := strings.Contains(src, "cycle") || strings.Contains(src, "ifchanged")
@@ -131,7 +154,7 @@ func genC04Hist(t *rapid.T, maxLen int) []c04Step {
 
 var _ = register(&propSpec{
 	ID:   "C04.history",
-	Rule: "deterministic generated multi-file programs over every tag (incl. cycle, ifchanged, macros, includes static/lazy, import, extends, filter tag, spaceless), both TrimBlocks/LStripBlocks settings; histories of 2-6 executions on ONE compiled template with contexts from a pool of 3 (same names carrying different Go types), entry points chosen at random, some executions failing (k-th tick() fails, invalid context key, division by a zero variable); each (output, error text) must equal that of a freshly compiled template executed once. Non-trivial: n >= 2 and (an earlier execution failed, or contexts differ, or a stateful tag is present); distinct by program+history.",
+	Rule: "deterministic generated multi-file programs over every tag (incl. cycle, ifchanged, macros, includes static/lazy, import, extends, filter tag, spaceless), both TrimBlocks/LStripBlocks settings; histories of 2-6 executions on ONE compiled template with contexts from a pool of 3 (same names carrying different Go types), entry points chosen at random, some executions failing (k-th tick() fails, invalid context key, division by a zero variable); each (output, error text) must equal that of a freshly compiled template executed once, and the byte slices ExecuteBytes handed out are read again after the whole history (a result is the caller's; later executions leave it alone). Non-trivial: n >= 2 and (an earlier execution failed, or contexts differ, or a stateful tag is present); distinct by program+history.",
 	Gen: func(t *rapid.T) any {
 		return &c04Case{
 			Prog:   genProgram(t, progOpts{ticks: true, includes: true, inherit: true, stateful: true, errProne: drawInt(t, 0, 3, "errprone") == 0, maxDepth: 4, maxNodes: 30}),
